@@ -192,7 +192,7 @@ def main(ck):
         rc, out = ck.run([binp, "replay", src], timeout=600)
     else:
         n, nx = (220, 80) if ck.tier == "quick" else (4000, 1500)
-        rc, out = ck.run([binp, str(n), str(nx)], timeout=3000)
+        rc, out = ck.run([binp, str(n), str(nx)], timeout=3000, env={"VERIF_CORPUS": os.path.join(ck.verif, "corpus", PID)})
     cases = []
     for l in out.splitlines():
         if l.startswith('{"name"'):
